@@ -38,29 +38,44 @@ type harnessState struct {
 
 func newHarness(r *corr.Run) *harnessState {
 	h := &harnessState{r: r, in: newInterner(), sigs: map[string]sigInfo{}, ts: 1_700_000_000}
+	h.openDB()
+	return h
+}
+
+// openDB gives the run a fresh any-store database (called again between rounds so that the
+// changes collection does not grow without bound).
+func (h *harnessState) openDB() {
+	defer timed("openDB")()
+	h.close()
 	dir, err := os.MkdirTemp("", "verif-auth-*")
 	if err != nil {
-		r.Fatal("tempdir: " + err.Error())
+		h.r.Fatal("tempdir: " + err.Error())
 	}
 	h.dir = dir
 	db, err := anystore.Open(context.Background(), dir+"/changes.db", &anystore.Config{SQLiteConnectionOptions: map[string]string{"synchronous": "off"}})
 	if err != nil {
-		r.Fatal("any-store open: " + err.Error())
+		os.RemoveAll(dir)
+		h.r.Fatal("any-store open: " + err.Error())
 	}
 	h.db = db
 	hs, err := headstorage.New(context.Background(), db)
 	if err != nil {
-		r.Fatal("headstorage: " + err.Error())
+		db.Close()
+		os.RemoveAll(dir)
+		h.r.Fatal("headstorage: " + err.Error())
 	}
 	h.hs = hs
-	return h
 }
 
 func (h *harnessState) close() {
 	if h.db != nil {
 		h.db.Close()
+		h.db = nil
 	}
-	os.RemoveAll(h.dir)
+	if h.dir != "" {
+		os.RemoveAll(h.dir)
+		h.dir = ""
+	}
 }
 
 // treeCase is one receiving tree over one receiver ACL.
